@@ -447,7 +447,10 @@ def _check_reject(case):
         spec = dict(spec, high_hz=high)
     bad = _stated_bad(low, high, rate)
     try:
-        _build(F, S, spec)
+        # "rejected": by the argument check, not by an arithmetic accident further down (a 0/0 that ends in
+        # int(nan) also raises ValueError) -- floating-point exceptions are made to surface as FloatingPointError
+        with np.errstate(divide="raise", invalid="raise", over="raise"):
+            _build(F, S, spec)
     except ValueError:
         return [], bad, {"raised": "ValueError"}
     except Exception as e:
